@@ -264,6 +264,17 @@ impl Parser {
                     Value::String(s) if s == "fixed" => {
                         parser.parse_fixed(complex, enclosing_namespace)
                     }
+                    // A logical type on these types is always ignored, but they still need to be parsed
+                    Value::String(s) if s == "record" => {
+                        parser.parse_record(complex, enclosing_namespace)
+                    }
+                    Value::String(s) if s == "enum" => {
+                        parser.parse_enum(complex, enclosing_namespace)
+                    }
+                    Value::String(s) if s == "array" => {
+                        parser.parse_array(complex, enclosing_namespace)
+                    }
+                    Value::String(s) if s == "map" => parser.parse_map(complex, enclosing_namespace),
                     _ => parser.parse(value, enclosing_namespace),
                 },
                 None => Err(Details::GetLogicalTypeField.into()),
